@@ -2,6 +2,8 @@
 package forward
 
 import (
+	"errors"
+	"io"
 	"net/http"
 	"net/http/httputil"
 	"net/url"
@@ -22,9 +24,36 @@ func New(passHostHeader bool) *httputil.ReverseProxy {
 			if !passHostHeader {
 				request.Host = request.URL.Host
 			}
+
+			if request.Body != nil && request.Body != http.NoBody {
+				request.Body = &deliveredBody{ReadCloser: request.Body}
+			}
 		},
 		ErrorHandler: utils.DefaultHandler.ServeHTTP,
 	}
+}
+
+// deliveredBody is the client's request body as it is handed to the transport.
+// The server closes that body when the response is started. The transport may then still be about to make its
+// last read of it (after the declared length it probes for more), would take the read on a closed body
+// for a broken request and tear down the backend connection in the middle of the response.
+// Once the end of the body has been seen, such a read ends in io.EOF: all the client sent has been delivered.
+type deliveredBody struct {
+	io.ReadCloser
+	eof bool
+}
+
+func (b *deliveredBody) Read(p []byte) (int, error) {
+	n, err := b.ReadCloser.Read(p)
+
+	switch {
+	case errors.Is(err, io.EOF):
+		b.eof = true
+	case b.eof && errors.Is(err, http.ErrBodyReadAfterClose):
+		err = io.EOF
+	}
+
+	return n, err
 }
 
 // Modify the request to handle the target URL.
